@@ -76,4 +76,50 @@ theorem serveSSOGate_continues (env : Trans.Env) (idp : Trans.IdentityProvider) 
     · subst ht; simp [evContinues, evGetSession] at hc
     · exact ⟨q, sess, hn, hv, hs⟩
 
+def evNotFound : Event := ⟨"http.Error", ["StatusNotFound"]⟩
+def evServerError : Event := ⟨"http.Error", ["StatusInternalServerError"]⟩
+
+/-- the gate of `ServeIDPInitiated` (from `session := idp.SessionProvider.GetSession(w, r, req)` up to the endpoint selection; the
+    request value under construction is the state): the handler goes on only with a session and with the metadata the registry
+    returned, without error, for the service provider that was asked for — which is what the endpoint is then selected from
+    (`Props/TransIdpInit`); an unknown provider gets exactly one 404, a failing registry one 500, and without a session this
+    handler writes nothing -/
+theorem idpInitiatedGate_cases (env : Trans.Env) (idp : Trans.IdentityProvider) (w : ResponseWriter) (r : Option HTTPRequest)
+    (spID : String) (req req' : Trans.IdpAuthnRequest) (tr : List Event)
+    (h : Trans.idpInitiatedGate env (some idp) w r spID req = .ok (req', tr)) :
+    (tr = [evGetSession] ∧ req' = req ∧ env.sessionProviderGetSession idp w r (some req) = .ok none) ∨
+    (∃ sess md e, env.sessionProviderGetSession idp w r (some req) = .ok (some sess) ∧
+        idp.ServiceProviderProvider.GetServiceProvider r spID = .ok (md, e) ∧
+        req' = { req with ServiceProviderMetadata := md } ∧
+        ((e = some "os.ErrNotExist" ∧ tr = [evGetSession, evNotFound]) ∨
+         (e ≠ some "os.ErrNotExist" ∧ e ≠ none ∧ tr = [evGetSession, evServerError]) ∨
+         (e = none ∧ tr = [evGetSession, evContinues]))) := by
+  unfold Trans.idpInitiatedGate at h
+  simp only [deref_some, Outcome.ok_bind', Outcome.pure_eq_ok] at h
+  cases hs : env.sessionProviderGetSession idp w r (some req) with
+  | err e => simp [hs] at h
+  | panic p => simp [hs] at h
+  | ok so =>
+    simp only [hs, Outcome.ok_bind'] at h
+    cases so with
+    | none => simp at h; exact Or.inl ⟨h.2.symm, h.1.symm, rfl⟩
+    | some sess =>
+      simp only [Option.isNone_some, Bool.false_eq_true, if_false] at h
+      cases hg : idp.ServiceProviderProvider.GetServiceProvider r spID with
+      | err e => simp [hg] at h
+      | panic p => simp [hg] at h
+      | ok res =>
+        obtain ⟨md, e⟩ := res
+        simp only [hg, Outcome.ok_bind'] at h
+        refine Or.inr ⟨sess, md, e, rfl, rfl, ?_⟩
+        by_cases hnf : e = some "os.ErrNotExist"
+        · subst hnf
+          simp at h
+          exact ⟨h.1.symm, Or.inl ⟨rfl, h.2.symm⟩⟩
+        · have hb : (e == some "os.ErrNotExist") = false := by simpa using hnf
+          simp only [hb, Bool.false_eq_true, if_false] at h
+          cases e with
+          | none => simp at h; exact ⟨h.1.symm, Or.inr (Or.inr ⟨rfl, h.2.symm⟩)⟩
+          | some m => simp at h; exact ⟨h.1.symm, Or.inr (Or.inl ⟨hnf, by simp, h.2.symm⟩)⟩
+
 end SamlVerif.TransServe
